@@ -283,3 +283,11 @@ Lemma Ev2_step0 {B} (F G : nat -> nat -> option B) b :
 Proof.
   intros E [N H]. exists (S N). intros g [|f] Hg Hf; [lia|]. rewrite E. apply H; lia.
 Qed.
+
+Lemma Ev2_bind_pair {A B D} (Ch : nat -> option (A * B)) (K : nat -> nat -> A -> B -> option D) r c b :
+  Ev Ch (r, c) -> Ev2 (fun g f => K g f r c) b ->
+  Ev2 (fun g f => match Ch g with None => None | Some (r', c') => K g f r' c' end) b.
+Proof.
+  intros [N1 H1] [N2 H2]. exists (Nat.max N1 N2). intros g f Hg Hf.
+  rewrite H1 by lia. apply H2; lia.
+Qed.
